@@ -14,7 +14,7 @@ func (Engine) Name() string { return "tsdbsim" }
 
 func (Engine) Runs(prop, tier string) int {
 	q := map[string]int{"C01": 1500, "C02": 2500, "C03": 240, "C20": 1500, "C09": 1200, "C52": 1200, "C53": 400, "C23": 500,
-		"C11": 1200, "C12": 1200, "C16": 800, "C18": 600, "C07": 800, "C08": 800, "C15": 500, "C22": 800, "C04": 300, "C24": 600}
+		"C11": 1200, "C12": 1200, "C16": 800, "C18": 600, "C07": 800, "C08": 800, "C15": 1200, "C22": 800, "C04": 300, "C24": 600}
 	n, ok := q[prop]
 	if !ok {
 		n = 500
